@@ -6,7 +6,7 @@ from __future__ import annotations
 import ast
 import string
 
-from ..index import AnalysisError, dotted, function_stmts, walk_no_nested
+from ..index import AnalysisError, dotted, function_stmts, parent, walk_no_nested
 from ..util import callee_last, calls_in, kw, txt
 
 EXPLANATION = (
@@ -23,7 +23,7 @@ EXPLANATION = (
     "probe frames, dtype string aliases resolving at run time."
 )
 LEVEL_RULE = "one obligation per (attribute, hop) / template slot / dictionary key found in the current tree"
-FLOORS = {"R1": 90, "R2": 14, "R3": 20, "R4": 3, "R5": 4}
+FLOORS = {"R1": 90, "R2": 14, "R3": 20, "R4": 3, "R5": 5, "R6": 3}
 
 IO = "pandera/io/pandas_io.py"
 STATS = "pandera/schema_statistics/pandas.py"
@@ -450,6 +450,55 @@ def run(ctx):
                "collision guarded" if guarded else
                "two checks with the same name (e.g. two Check.gt) overwrite each other: only the last survives "
                "serialisation", pc.loc(keyed[0]))
+    # option values: only None means "unset"; filtering by truthiness drops legal values (False, 0)
+    for f3 in (pc, fc, ser_cs, des_cs, fn(st, "parse_check_statistics")):
+        for n in walk_no_nested(f3.node):
+            if isinstance(n, ast.DictComp) and "option" in txt(n.generators[0].iter):
+                tv = n.generators[0].target
+                vname = tv.elts[1].id if isinstance(tv, ast.Tuple) and len(tv.elts) == 2 and isinstance(tv.elts[1], ast.Name) else None
+                for cond in n.generators[0].ifs:
+                    truthy = isinstance(cond, ast.Name) and cond.id == vname or (
+                        isinstance(cond, ast.UnaryOp) and isinstance(cond.operand, ast.Name) and cond.operand.id == vname)
+                    ctx.ob("R5", f3, f"option filter `{txt(n)[:60]}`", not truthy,
+                           "keeps every option that is set (only None is dropped)" if not truthy else
+                           f"options are filtered by truthiness (`if {txt(cond)}`): ignore_na=False / n_failure_cases=0 are dropped and "
+                           "come back as their defaults", f3.loc(n))
+    # ---- R6 every statistic passes through the dtype-aware converter, and what is converted is what is used
+    for f3, label in ((ser_cs, "writer"), (des_cs, "reader")):
+        conv = f3.nested.get("handle_stat_dtype")
+        if conv is None:
+            raise AnalysisError(f"{f3.short}: handle_stat_dtype missing")
+        # locals filled from the converter
+        filled = {}
+        for s2 in function_stmts(f3):
+            if isinstance(s2, ast.Assign) and isinstance(s2.targets[0], ast.Subscript) and isinstance(s2.targets[0].value, ast.Name) \
+                    and any(callee_last(c) == "handle_stat_dtype" for c in calls_in(s2)):
+                filled[s2.targets[0].value.id] = s2
+        for name, st2 in filled.items():
+            reads = [n for n in walk_no_nested(f3.node) if isinstance(n, ast.Name) and n.id == name and isinstance(n.ctx, ast.Load)
+                     and not (isinstance(parent(n), ast.Subscript) and isinstance(parent(n).ctx, ast.Store))]
+            used = [n for n in reads if n.lineno > st2.lineno]
+            ctx.ob("R6", f3, f"{label}: converted statistics `{name}` are what is passed on", bool(used),
+                   "read after being filled" if used else
+                   f"`{name}` is filled with dtype-converted statistics but never read: the unconverted values are used instead "
+                   "(Timestamp/Timedelta bounds come back as str/int)", f3.loc(st2))
+        # every value that leaves (constructor argument / return) is converted
+        outs = []
+        for n in walk_no_nested(f3.node):
+            if isinstance(n, ast.Call) and isinstance(n.func, ast.Name) and n.func.id == "check":
+                outs.append(n)
+        for c in outs:
+            srcs = [a.value if isinstance(a, ast.keyword) else a for a in list(c.args) + [k for k in c.keywords]]
+            ok_all = True
+            for a in srcs:
+                if isinstance(a, ast.Call) and callee_last(a) == "handle_stat_dtype":
+                    continue
+                if isinstance(a, ast.Name) and a.id in filled:
+                    continue
+                ok_all = False
+            ctx.ob("R6", f3, f"{label}: `{txt(c)[:50]}` receives converted statistics", ok_all,
+                   "arguments come from handle_stat_dtype" if ok_all else
+                   "the check is rebuilt from statistics that did not pass the dtype-aware converter", f3.loc(c))
     ctx.assume("attribute sets A_col/A_idx/A_schema are those named in the property statement; every member is "
                "verified to be a constructor parameter on each run")
 
